@@ -28,6 +28,11 @@ for w, (st, ut) in INTS.items():
         'subst': [(r'typedef typename std::make_signed<IntTypeT>::type SignedType;', 'typedef %s SignedType;' % st, 1)],
         'tparams': {'IntTypeT': ut}})
 
+functions.append({'name': 'MostSignificantBit', 'file': BU, 'anchor': r'inline int MostSignificantBit\(uint32_t n\)\s*\{', 'sig': 'int MostSignificantBit(uint32_t n)'})
+functions.append({'name': 'CountOneBits32', 'file': BU, 'anchor': r'inline int CountOneBits32\(uint32_t n\)\s*\{', 'sig': 'int CountOneBits32(uint32_t n)'})
+functions.append({'name': 'ReverseBits32', 'file': BU, 'anchor': r'inline uint32_t ReverseBits32\(uint32_t n\)\s*\{', 'sig': 'uint32_t ReverseBits32(uint32_t n)'})
+functions.append({'name': 'CopyBits32', 'file': BU, 'anchor': r'inline void CopyBits32\(uint32_t \*dst, int dst_offset, uint32_t src,\s*int src_offset, int nbits\)\s*\{',
+                  'sig': 'void CopyBits32(uint32_t *dst, int dst_offset, uint32_t src, int src_offset, int nbits)'})
 functions.append({
     'name': 'ConvertSignedIntsToSymbols', 'file': 'src/draco/core/bit_utils.cc',
     'anchor': r'void ConvertSignedIntsToSymbols\(const int32_t \*in, int in_values,\s*uint32_t \*out\)\s*\{',
@@ -308,3 +313,7 @@ for sfx in ['u8', 'u16', 'u32', 'u64', 'i8', 'i16', 'i32', 'i64']:
       unwind_reason='vector-model append loop copies sizeof(T) <= 8 bytes; unwinding assertion on')
 J('bitseq.rt', 'h_bitseq_rt', ['C17', 'C06'], unwind=42, unwind_reason='bounded: prefix = 3 bytes, payload <= 40 bits (one 32-bit and one 8-bit write), 40-byte vector model', native=True, ignore=[SHL31],
   cbmc=['--object-bits', '10'], defines=DEFS + ['-DBITSEQ_PREFIX=3', '-DBITSEQ_N2MAX=8'], timeout=1500, cost=10)
+J('bitutil.MostSignificantBit.contract', 'h_enf_MostSignificantBit', ['C17', 'C08', 'C05'], enforce='MostSignificantBit')
+J('bitutil.CountOneBits32.contract', 'h_enf_CountOneBits32', ['C17'], enforce='CountOneBits32', unwind=34, unwind_reason='spec loop over 32 bit positions')
+J('bitutil.ReverseBits32.contract', 'h_enf_ReverseBits32', ['C17'], enforce='ReverseBits32')
+J('bitutil.CopyBits32.contract', 'h_enf_CopyBits32', ['C17'], enforce='CopyBits32')
